@@ -21,6 +21,10 @@ func extra(repo, out string, root, helpers *pkgFiles) {
 		genEntryFacts(out, root)
 		genCacheFacts(out, root)
 		genMergeFacts(out, root)
+		if helpers != nil {
+			genPurity(out, root, helpers)
+			genLocks(out, root, helpers)
+		}
 	}
 }
 
